@@ -120,6 +120,8 @@ func svcErrTok(msg string) string {
 		return "closed"
 	case strings.Contains(msg, "storage is closed"):
 		return "storageclosed"
+	case strings.Contains(msg, "record too large"):
+		return "recordtoolarge"
 	case strings.Contains(msg, "already committed or rolled back"):
 		return "txclosed"
 	case strings.Contains(msg, "key not found"):
@@ -1402,6 +1404,19 @@ func (s *svcGen) limitsCase(big bool) {
 	s.emit("rpc", "BatchWrite", "3", "p", hx([]byte("b1")), "01", "p", bad, "02", "p", hx([]byte("b3")), "03")
 	s.emit("rpc", "BatchWrite", "3", "p", hx([]byte("b1")), "01", "x", hx([]byte("b2")), "02", "p", hx([]byte("b3")), "03")
 	s.emit("rpc", "BatchWrite", "2", "p", kk(svcMaxKey), "01", "d", kk(svcMaxKey-1), "=")
+	// the key limits hold for EVERY operation type of a batch, at every position
+	for _, badd := range []string{kk(0), kk(svcMaxKey + 1)} {
+		switch g.intn(3) {
+		case 0:
+			s.emit("rpc", "BatchWrite", "3", "d", badd, "=", "p", hx([]byte("b4")), "04", "p", hx([]byte("b5")), "05")
+		case 1:
+			s.emit("rpc", "BatchWrite", "3", "p", hx([]byte("b4")), "04", "d", badd, "=", "p", hx([]byte("b5")), "05")
+		default:
+			s.emit("rpc", "BatchWrite", "3", "p", hx([]byte("b4")), "04", "p", hx([]byte("b5")), "05", "d", badd, "=")
+		}
+		s.emit("rpc", "Get", hx([]byte("b4")))
+		s.emit("rpc", "Scan", hx([]byte("b")), "=", "=", "=", "0")
+	}
 	s.emit("rpc", "Get", hx([]byte("b1")))
 	s.emit("rpc", "BatchWrite", "0")
 	if big {
@@ -1429,6 +1444,23 @@ func (s *svcGen) limitsCase(big bool) {
 	s.emit("rpc", "TxPut", id, hx([]byte("t")), "01")
 	s.finish(id, true)
 	s.emit("rpc", "Get", hx([]byte("t")))
+	// a commit the LOG refuses (one buffered entry larger than a log record, 32 KB): the service and the embedded API fail
+	// alike, nothing is applied, and the handle is dead afterwards (every later use is refused like any finished handle)
+	s.begin(false)
+	id = s.open[0]
+	s.emit("rpc", "TxPut", id, hx([]byte("r1")), "01")
+	s.emit("rpc", "TxPut", id, hx([]byte("r2")), fmt.Sprintf("*%d:%02x", g.pick(32768-17-2+1, 40000, 70000), 0x61+g.intn(3)))
+	s.emit("rpc", "TxGet", id, hx([]byte("r1")))
+	s.finish(id, true)
+	s.emit("rpc", "TxGet", id, hx([]byte("r1")))
+	s.emit("rpc", "TxGet", id, hx([]byte("t")))
+	s.emit("rpc", "TxScan", id, "=", "=", "=", "=", "0")
+	s.emit("rpc", "TxPut", id, hx([]byte("r3")), "03")
+	s.emit("rpc", "CommitTransaction", id)
+	s.emit("rpc", "RollbackTransaction", id)
+	s.emit("rpc", "Get", hx([]byte("r1")))
+	s.emit("rpc", "Put", hx([]byte("r4")), "04") // the write lock was released
+	s.emit("rpc", "Get", hx([]byte("r4")))
 	// batch size limit last (the data set grows by a thousand keys)
 	for _, n := range []int{svcMaxBatch - 1, svcMaxBatch, svcMaxBatch + 1} {
 		parts := []string{"rpc", "BatchWrite", strconv.Itoa(n)}
